@@ -34,6 +34,8 @@ def base_image(seed, kind="noise"):
     a = gen.smooth_noise(seed, SHAPE, sigma=0.7)
     if kind == "positive":
         return (np.abs(a) + 1.0).astype(np.float32)
+    if kind == "quant":  # small integers: comparisons between such images are full of ties
+        return np.round(a * 1.5).astype(np.float32)
     return a
 
 
@@ -237,7 +239,14 @@ def judge_expr(d):
     e = d["expr"]
     scale = d["scale"]
     PF, CF = custom_providers(), custom_converters()
-    img = base_image(d["img_seed"])
+    img = base_image(d["img_seed"], d.get("img_kind", "noise"))
+    if e["t"] == "cmp":
+        with np.errstate(all="ignore"):
+            sides = []
+            for side in (e["l"], e["r"]):
+                ks, vs = interp(side, scale)
+                sides.append(np.broadcast_to(np.asarray(vs(img) if ks == "c" else vs, dtype=np.float64), SHAPE))
+            d["_ties"] = int((sides[0] == sides[1]).sum())
     with warnings.catch_warnings():
         warnings.simplefilter("ignore")
         with np.errstate(all="ignore"):
@@ -527,6 +536,27 @@ def expr_cases(draw):
 
 
 @st.composite
+def tie_cases(draw):
+    """comparison of every pair of operand kinds (converter / provider / scalar) on small-integer images: ties everywhere"""
+    scale = draw(st.sampled_from([1.0, 2.0, 0.5]))
+    seeds = st.sampled_from([5, 6])
+    sc = st.builds(lambda v: {"t": "scalar", "v": v}, st.sampled_from([-2.0, 0.0, 1.0, 2.0, 4.0, 2]))
+    prov0 = st.one_of(st.builds(lambda s_: {"t": "from_array", "seed": s_, "kind": "quant", "oscale": scale}, seeds),
+                      st.just({"t": "prov", "name": "p1", "args": []}))
+    prov = st.one_of(prov0, prov0, st.builds(lambda x: {"t": "neg", "x": x}, prov0),
+                     st.builds(lambda l, r: {"t": "binop", "op": "*", "l": l, "r": r}, prov0, st.just({"t": "scalar", "v": 2.0})))
+    conv0 = st.one_of(st.just({"t": "conv", "name": "c1", "args": []}), st.just({"t": "conv", "name": "c4", "args": [1.0, 0.0]}),
+                      st.just({"t": "conv", "name": "c4", "args": [-1.0, 0.0]}), st.just({"t": "conv", "name": "c2", "args": []}))
+    conv = st.one_of(conv0, conv0, st.builds(lambda x: {"t": "neg", "x": x}, conv0),
+                     st.builds(lambda f, g: {"t": "compose", "f": f, "g": g}, conv0, conv0))
+    # provider OP converter is not an offered combination (ImageProvider operators only know providers and scalars)
+    pair = draw(st.sampled_from(["cc", "cp", "cs", "pp", "ps", "sc", "sp"]))
+    pick = {"c": conv, "p": prov, "s": sc}
+    expr = {"t": "cmp", "op": draw(st.sampled_from(CMP)), "l": draw(pick[pair[0]]), "r": draw(pick[pair[1]])}
+    return {"scale": scale, "expr": expr, "img_seed": draw(seeds), "img_kind": "quant", "pair": pair}
+
+
+@st.composite
 def unit_cases(draw):
     kind = draw(st.sampled_from(["cov-gaussian_filter", "cov-shift", "cov-dilation", "cov-closing", "smooth", "gaussian", "gaussian", "rescale", "curry"]))
     d = {"kind": kind, "scale": draw(nice_scales), "lam": draw(st.sampled_from([1.0, 0.5, 2.0, 1.7, 0.3, 3.0])), "seed": draw(gen.seeds)}
@@ -583,6 +613,9 @@ def engines():
     return [
         Engine("expr", judge_expr, strategy=expr_cases(), nontrivial=nontrivial_expr, labels=labels_expr,
                cases={"quick": 500, "thorough": 20000}, shards={"quick": 8, "thorough": 16}),
+        Engine("ties", judge_expr, strategy=tie_cases(), nontrivial=lambda d: d.get("_ties", 1) > 0,
+               labels=lambda d: [f"pair:{d['pair']}", f"op:{d['expr']['op']}"],
+               cases={"quick": 300, "thorough": 6000}, shards={"quick": 6, "thorough": 16}),
         Engine("units", judge_units, strategy=unit_cases(), nontrivial=lambda d: d["lam"] != 1.0 or d["kind"] in ("gaussian", "rescale", "curry"),
                labels=lambda d: [f"kind:{d['kind']}", f"lambda:{d['lam']}"],
                cases={"quick": 250, "thorough": 6000}, shards={"quick": 8, "thorough": 16}),
